@@ -121,10 +121,17 @@ fn drift_windowed<T: Scalar>(spec: &Spec, alpha: &[f64], period: usize, len: usi
         // discontinuous (defined as 0 there, unbounded next to it) and no floating-point evaluation can
         // track it; those singular steps are not judged (decided on the exact tenths of the letters)
         let tenths: Vec<i64> = cyc.iter().map(|x| (x * 10.0).round() as i64).collect();
+        // ... unless the floating-point sum of the window, taken oldest first as any evaluation from
+        // the window would, is itself exactly 0 (all zeros, or +c/-c pairs): then 0 is attainable
         let singular = |i: usize| -> bool {
             spec.kind == Kind::CenterOfGravity && {
                 let n = spec.n.min(i + 1);
-                (0..n).map(|j| tenths[(i - j) % p]).sum::<i64>() == 0
+                let exact_zero = (0..n).map(|j| tenths[(i - j) % p]).sum::<i64>() == 0;
+                let mut naive = 0.0f64;
+                for j in (0..n).rev() {
+                    naive += cyc[(i - j) % p];
+                }
+                exact_zero && naive != 0.0
             }
         };
         let r = guard(|| {
